@@ -906,6 +906,57 @@ def check_text_comment(ctx, cls, cbytes, got, label):
             'comment_changed', f'{label}: imported comment {got!r}')
 
 
+_RFC4716_HEADERS = [
+    # (header lines, expected comment) - continuation with a trailing
+    # backslash as in RFC 4716 section 3.3 / 3.6
+    (['Comment: plain one-line comment'], b'plain one-line comment'),
+    (['Comment: This is my public key for use on \\',
+      "servers which I don't like."],
+     b"This is my public key for use on servers which I don't like."),
+    (['Subject: me', 'Comment: DSA Public Key for use with MyIsp'],
+     b'DSA Public Key for use with MyIsp'),
+    (['Comment: "quoted comment, continued \\', 'over two lines"'],
+     b'quoted comment, continued over two lines'),
+    (['x-private-use: one \\', 'two \\', 'three',
+      'Comment: after a private header'], b'after a private header'),
+    (['Comment: time 08:31:24 \\', '2001 with: colons'],
+     b'time 08:31:24 2001 with: colons'),
+]
+
+
+def eval_handwritten_rfc4716(ctx, key, label):
+    """The same key as somebody else would write it in RFC 4716 form"""
+
+    b64 = base64.b64encode(key.public_data).decode()
+    for hdrs, want_comment in _RFC4716_HEADERS:
+        for width in (70, 64):
+            text = '---- BEGIN SSH2 PUBLIC KEY ----\n' + \
+                '\n'.join(hdrs) + '\n' + \
+                '\n'.join(b64[i:i+width]
+                          for i in range(0, len(b64), width)) + \
+                '\n---- END SSH2 PUBLIC KEY ----\n'
+            ctx.hit('foreign_rfc4716_files')
+            try:
+                back = asyncssh.import_public_key(text)
+            except KeyImportError as exc:
+                ctx.bad('foreign_key_rejected',
+                        f'{label}: hand-written RFC 4716 file with headers '
+                        f'{hdrs}: {exc}')
+                continue
+            except Exception as exc:    # noqa: BLE001
+                ctx.bad('import_raised_undocumented',
+                        f'{label}: {type(exc).__name__}: {exc}')
+                continue
+            if back.public_data != key.public_data:
+                ctx.bad('round_trip_key_differs',
+                        f'{label}: hand-written RFC 4716 {hdrs}')
+            elif back.get_comment_bytes() != want_comment:
+                ctx.bad('comment_changed',
+                        f'{label}: hand-written RFC 4716 {hdrs}: comment '
+                        f'{back.get_comment_bytes()!r}, expected '
+                        f'{want_comment!r}')
+
+
 def eval_pub(ctx, spec, key, fmt, citem, cls):
     cbytes = comment_bytes(citem)
     key.set_comment(cbytes)
@@ -954,6 +1005,9 @@ def eval_pub(ctx, spec, key, fmt, citem, cls):
     fp = key.get_fingerprint()
     if fp != fingerprint(key.public_data):
         ctx.bad('fingerprint_wrong', f'{label}: {fp}')
+
+    if fmt == 'rfc4716' and cls == 'benign':
+        eval_handwritten_rfc4716(ctx, key, label)
 
     if cls != 'benign':
         return
